@@ -7,6 +7,7 @@ package main
 import (
 	"flag"
 	"strings"
+	"sync/atomic"
 
 	"gonum.org/v1/gonum/verifx/c01/blasmodel"
 	"gonum.org/v1/gonum/verifx/vrt"
@@ -83,3 +84,23 @@ func runBlas(c *vrt.Ctx) {
 	})
 	c.Note("blas.invalid_calls_by_first_clause", by)
 }
+
+// sampleGate limits the literal samples offered per sub-check, so that the
+// eight samples vrt keeps come from all of them.
+type sampleGate struct{ n atomic.Int32 }
+
+func (g *sampleGate) offer(c *vrt.Ctx, limit int32, mk func() any) {
+	if g.n.Load() >= limit {
+		return
+	}
+	if g.n.Add(1) > limit {
+		return
+	}
+	c.Sample(mk())
+}
+
+var (
+	sampBlasValid, sampBlasInvalid, sampWrap  sampleGate
+	sampLapackValid, sampLapackFault, sampMat sampleGate
+	sampBlasGuard, sampAsm                    sampleGate
+)
